@@ -186,7 +186,8 @@ func (v AnnotationLinkValidator) validatePathAnnotations(
 		}
 
 		// Check if the Path value appears multiple times
-		if seenRefValues.Contains(expectedFuncParamName) {
+		isRepeatedRef := seenRefValues.Contains(expectedFuncParamName)
+		if isRepeatedRef {
 			diags = append(diags, diagnostics.NewErrorDiagnostic(
 				v.receiver.Annotations.FileName(),
 				fmt.Sprintf("Duplicate @Path parameter reference '%s'", expectedFuncParamName),
@@ -201,7 +202,20 @@ func (v AnnotationLinkValidator) validatePathAnnotations(
 		if aliasDiag != nil {
 			diags = append(diags, *aliasDiag)
 		} else {
-			// Check if the Path's alias (i.e. 'name' property) appears multiple times
+			// Check if the Path's alias (i.e. 'name' property) appears multiple times.
+			// A @Path without an alias goes by its parameter's name in the URL, so that name is taken as well
+			if pAlias == nil || *pAlias == "" {
+				if seenAliases.Contains(expectedFuncParamName) && !isRepeatedRef {
+					diags = append(diags, diagnostics.NewErrorDiagnostic(
+						v.receiver.Annotations.FileName(),
+						fmt.Sprintf("@Path parameter '%s' collides with the alias of another @Path", expectedFuncParamName),
+						diagnostics.DiagLinkerDuplicatePathAliasRef,
+						pathAttr.Comment.Range(),
+					))
+				}
+				seenAliases.Add(expectedFuncParamName)
+			}
+
 			if pAlias != nil && *pAlias != "" {
 				alias := *pAlias
 
